@@ -516,6 +516,7 @@ func run(c *core.Ctx) error {
 			modelCfg{"MCSearchers_c08_t_flat2.cfg", 3, 29 * time.Minute},
 			modelCfg{"MCSearchers_c08_t_none.cfg", 3, 29 * time.Minute},
 			modelCfg{"MCSearchers_c08_t_heap.cfg", 2, 29 * time.Minute},
+			modelCfg{"MCSearchers_c08_t_deepq.cfg", 2, 29 * time.Minute},
 			modelCfg{"MCSearchers_c08_t_deep.cfg", 3, 29 * time.Minute},
 			modelCfg{"MCSearchers_c08_t_deep_none.cfg", 3, 29 * time.Minute},
 			modelCfg{"MCSearchers_c08_t_hist.cfg", 2, 29 * time.Minute})
@@ -561,8 +562,8 @@ func engineB(c *core.Ctx) error {
 	phases := []struct {
 		heap  int
 		nCorp int
-	}{{0, c.Pick(14, 420)}, {1, c.Pick(5, 120)}}
-	nQ := c.Pick(9, 14)
+	}{{0, c.Pick(14, 300)}, {1, c.Pick(5, 80)}}
+	nQ := c.Pick(9, 12)
 	nProg := c.Pick(4, 6)
 	maxCalls := c.Pick(4, 8)
 	depth := c.Pick(2, 3)
